@@ -58,6 +58,9 @@ def build_harness(kind):
         if base == "hooked":
             env["RUSTFLAGS"] = GUARD_FLAGS
             cmd += ["--features", "hooks"]
+        elif base == "hooked-diff":     # hook build + the reference copy compiled the same way (its wasm facade is needed for the comparison)
+            env["RUSTFLAGS"] = GUARD_FLAGS
+            cmd += ["--features", "hooks,diffsel"]
         elif base == "wasm":      # host build of wasm.rs only: survives a refactor that breaks the stage re-exports of src/verif.rs
             env["RUSTFLAGS"] = GUARD_FLAGS + " --cfg fast_qr_verif_wasm_only"
             cmd += ["--features", "wasmonly"]
